@@ -8,6 +8,7 @@ real `mfront::gb::integrate<Mock>`; the theorems are in lean/TfelVerif/C40/Props
 import collections
 
 from checks import C39 as base
+from checks import c39ext
 
 PROPS = ["TfelVerif.C40.Props"]
 S1 = {"tf", "isv", "se", "de"}
@@ -91,6 +92,8 @@ def run(ck):
     if corr:
         report("corr:integrate", "correspondence Model.lean (variant %s/%s) vs %s broken on %d answers on which s1 is still untouched on failure"
                % (variant[0], variant[1], base.SITE, len(corr)), {"differing_answers": len(corr), "examples": corr[:5]}, False)
+    h2_n, h2_fail, h2_hist = c39ext.run(ck, ck.c39h2, "C40", reported)
+    failing += h2_fail
     e2e_n, e2e_fail = 0, 0
     if not ck.quick:
         e2e = base.run_e2e(ck, rng)
@@ -100,6 +103,7 @@ def run(ck):
     full = variant[0] == "late"
     ck.assumptions += [
         "M: Model.lean is tied to Integrate.hxx by differential execution of the real `mfront::gb::integrate<Behaviour>` instantiated with a scripted mock behaviour (harness/C39/mock.hxx): identical event trace, return value, rdt bits, written buffers, error message on every request",
+        "executeInitializeFunction / executePostProcessing (the other entry points of Integrate.hxx returning -1) are not part of Model.lean: they are run exhaustively over their scripts (failure or exception in the constructor, initialize(), the user method, the second constructor) in harness/C39/harness2.cxx and the predicate `-1 => s1 untouched` is evaluated on every answer (checks/c39ext.py)",
         "writes to s1 are observed by filling every output buffer with sentinels and diffing after the call (a store of the sentinel value itself would be missed; the mock never produces it)",
         "the tree matched model variant %s/%s: %s" % (variant[0], variant[1],
             "`failed_integration_leaves_s1_untouched` (full statement) applies" if full else
@@ -116,4 +120,5 @@ def run(ck):
         "failing_stage_histogram": dict(stage_hist), "full_theorem_applies": full,
         "traces_validated_against_impl": n, "samples": samples,
         "generated_behaviour_calls": e2e_n, "generated_behaviour_property_failures": e2e_fail,
+        "second_harness_requests": h2_n, "second_harness_request_kinds": h2_hist,
     })
